@@ -59,8 +59,8 @@ CLAIMED['C07'] = dict(
          'preceded by an adequate availability request, which is what lets buffer_input::require() see every byte a memory input exposes; (b) rule code only calls input members that '
          'both families provide (resolved callees; documented memory-only places listed with reasons); (c) buffer_input::require/discard/size/empty/end/bump*: the reader gets the current '
          'm_end and a length bounded by the current free space, require() only exits with enough data / end of input / overflow_error, discard() preserves window and counters; (d) the '
-         'derived input classes add constructors only. Breaking any of these breaks input-class independence for some reader schedule the tests never produce (they read full chunks). '
-         'OS/stream behaviour is out of reach of this technique.',
+         'derived input classes add constructors only; (e) the stdio reader and the mmap holder yield an empty input for a zero-length file, evaluated under the ISO C / POSIX contracts of fread and mmap. '
+         'Breaking any of these breaks input-class independence for some reader schedule or file the tests never produce. OS/stream behaviour beyond those two contracts is out of reach of this technique.',
     ref='5/C07, 4.4')
 
 CLAIMED['C09'] = dict(
@@ -93,11 +93,12 @@ CLAIMED['C11'] = dict(
     ref='4.5, 5/C11')
 
 CLAIMED['C05'] = dict(
-    technique='path enumeration with raise events, AST shape checks, who-may-catch inventory over every header, noexcept consistency',
+    technique='path enumeration with raise events, AST shape checks, who-may-catch inventory over every header, noexcept consistency, compile-time witnesses for demangle',
     text='Claims the structural clauses (who raises what, where; who may catch), not the numerical consistency of positions (C06): must<R> raises exactly the failed R through Control<R>::raise '
          'with the cursor untouched; raise<T>; the must family by EQUIV (identity of the raised rule for every answer history); normal::raise/raise_nested build parse_error(message, position '
          'argument) with the custom or default message and raise_nested really nests; what() = position + ": " + message; the only try/catch sites in all 194 headers are the try_catch '
-         'rules, control_action and parse_nested, so every other combinator propagates exceptions unchanged; each try_catch rule catches exactly the type it names; noexcept code never raises.',
+         'rules, control_action and parse_nested, so every other combinator propagates exceptions unchanged; each try_catch rule catches exactly the type it names; noexcept code never raises; '
+         'the default message names the complete rule type: demangle< T >() on witness types whose names contain the characters its implementations search for, as static_assert witnesses type-checked by g++ (the compiler of the build) and clang.',
     ref='5/C05')
 
 CLAIMED['C20'] = dict(
@@ -132,9 +133,9 @@ CLAIMED['C18'] = dict(
     ref='5/C18')
 
 CLAIMED['C12'] = dict(
-    technique='abstract stack execution of the builder hooks + soundness of handler selection read from instantiated types on witness grammars + AST shape of parse()/transformers',
+    technique='abstract stack execution of the builder hooks + soundness of handler selection read from instantiated types on witness grammars + evaluation of parse() and of the transformers over their cases',
     text='Claims builder discipline and selection, not the whole-run statement: every instantiated handler hook pushes/pops exactly one frame, attaches only in success after the pop by appending to the '
-         'frame below, and stamps the span with the input positions; for witness grammars (unselected chains of depth 1..12 above a selected rule - beyond the leaf-optimisation depth of 8 -, recursion, '
+         'frame below (any other mutation of a frame\'s children is reported), and stamps the span with the input positions; for witness grammars (unselected chains of depth 1..12 above a selected rule - beyond the leaf-optimisation depth of 8 -, recursion, '
          'store_all with internal sequences) the handler chosen for each rule is selected iff control is enabled and the selector selects it, and the frame-less leaf optimisation is only used when no '
          'selected rule is reachable below; parse() returns the root iff the plain parse succeeded; transformers as documented. Together with C08 this excludes leftover nodes of backtracked or aborted branches.',
     ref='5/C12')
@@ -166,9 +167,9 @@ CLAIMED['C16'] = dict(
 
 CLAIMED['C06'] = dict(
     technique='who-may-write inventory of the cursor + exact set evaluation of the bump primitives + justification of every position-shortcut call site by path-sensitive byte facts (exact for atoms/strings/eol rules over five policies, class strings for scanners) + forwarding/lazy-recomputation structure',
-    text='Decides the structural decomposition of the statement, not a simulation of parsing runs: (1) only the bump primitives, constructors, restart/discard and rewind-guard restores write a cursor; (2) internal::bump is the per-byte definition, '
+    text='Decides the structural decomposition of the statement, not a simulation of parsing runs: (1) only the bump primitives, constructors, restart/discard and restores of a cursor saved by rewind_save() write a cursor, and no library rule calls the counter-resetting restart; (2) internal::bump is the per-byte definition, '
          'bump_in_this_line / bump_to_next_line are what their names say; (3) every call of a shortcut in the headers (closed table of call sites, all covered) happens only on paths where the skipped bytes are known not to be / to end with the '
-         'line-ending character of the input; (4) inputs forward to the primitives with their own cursor and Eol::ch, lazy inputs recompute with internal::bump from the begin iterator, byte() includes the initial byte, sub-inputs inherit the position. '
+         'line-ending character of the input; (4) by evaluation with symbolic counters: after in.bump*( n ) the cursor is what the primitive of that name gives with Eol::ch, lazy position( it ) is the definition applied to the begin iterator, byte() includes the initial byte; sub-inputs inherit the position. '
          'From these, eager == lazy == the documented function of the consumed prefix follows for all byte-oriented and UTF-8 rules. Known finding D08 (cr_crlf) is reported by (3).',
     ref='5/C06')
 
